@@ -102,6 +102,8 @@ def cells(tier, seed):
                 continue
             if "nested" in b.tags and (n > 2 or len(batch) > 1):
                 continue
+            if "eig" in b.tags and (n != 2 or batch):
+                continue
             for debug in ((True,) if tier == "quick" else (True, False)):
                 out.append({"id": f"{name}/n{n}/b{'x'.join(map(str, batch)) or '-'}/d{int(debug)}/diag",
                             "params": {"builder": name, "n": n, "batch": list(batch), "group": "diag", "debug": debug}})
